@@ -382,7 +382,8 @@ func (c *contentValidator) ValidateRequestAccept(ch *aclrecordproto.AclAccountRe
 		return ErrInsufficientPermissions
 	}
 	record, exists := c.aclState.requestRecords[ch.RequestRecordId]
-	if !exists {
+	if !exists || record.Type != RequestTypeJoin {
+		// only join requests can be accepted, a removal request is handled by AccountRemove
 		return ErrNoSuchRequest
 	}
 	acceptIdentity, err := c.keyStore.PubKeyFromProto(ch.Identity)
@@ -391,6 +392,11 @@ func (c *contentValidator) ValidateRequestAccept(ch *aclrecordproto.AclAccountRe
 	}
 	if !acceptIdentity.Equals(record.RequestIdentity) {
 		return ErrIncorrectIdentity
+	}
+	if !c.aclState.Permissions(acceptIdentity).NoPermissions() {
+		// the requester was admitted by another route in the meantime: accepting the stale
+		// request must not re-permission an existing member
+		return ErrInsufficientPermissions
 	}
 	if ch.Permissions == aclrecordproto.AclUserPermissions_Owner {
 		return ErrInsufficientPermissions
